@@ -269,7 +269,7 @@ def gen_tsamples(rng, dt, tmax_hint):
 
 
 def gen_script(rng, option, space_kind=None, dyadic=None, policy=None, static=False, degenerate=False, sub_molecule=False,
-               units=True, max_steps=120, mode=None, zero_tmax=None, quantity=None, many_reactions=False, huge_ratio=False):
+               units=True, max_steps=120, mode=None, zero_tmax=None, quantity=None, many_reactions=False, huge_ratio=False, nearmiss=False):
     """(script description for life_child, info) — a VALID script.  `units`: True (half of the scripts state their time
     quantities in their own units and use a units system with another time unit and a quantity unit that may differ from
     molecule), False, or "force"; `quantity`: force that quantity unit.
@@ -281,6 +281,10 @@ def gen_script(rng, option, space_kind=None, dyadic=None, policy=None, static=Fa
         dt = 2.0 ** (-rng.randint(2, 7))
     else:
         dt = rng.choice([0.01, 0.003, 0.07, 0.0123, 0.1])
+    if nearmiss:
+        # requested times i*dt (products) against a clock that ACCUMULATES dt: some steps miss their request by one ulp
+        # from below (0.1 eight times is 0.7999999999999999 < 0.8), so the covering record is the NEXT step
+        dyadic, dt, policy, units = False, rng.choice([0.1, 0.01, 0.07, 0.003]), "on_t_sample", False
     if huge_ratio:
         # t / sampling_interval beyond 2^31 within a handful of steps: dt = 1 s, interval around a nanosecond
         dyadic, dt, policy, units, zero_tmax = True, 1.0, "on_interval", False, False
@@ -297,6 +301,10 @@ def gen_script(rng, option, space_kind=None, dyadic=None, policy=None, static=Fa
     r_zero = rng.random() < 0.06
     zero_tmax = r_zero if zero_tmax is None else zero_tmax
     ts, style = gen_tsamples(rng, dt, tmax)
+    if nearmiss:
+        nsteps = max(nsteps, 25)
+        tmax = dt * nsteps + dt * 0.5
+        ts, style, zero_tmax = [i * dt for i in range(nsteps + 1)], "multiples", False
     if zero_tmax:
         tmax = 0.0
     kw = {"t_sample": ts, "time_step": dt, "sampling_policy": policy, "rng_seed": rng.randint(0, 2 ** 31 - 1)}
